@@ -29,11 +29,11 @@ type HStep struct {
 }
 
 type HCase struct {
-	BaseNs    int64   `json:"base_ns"`           // nanosecond field of the first modification time
-	Initial   *File   `json:"initial,omitempty"` // file present when the configuration object is created (nil: no file yet)
-	Observers int     `json:"observers"`
+	BaseNs    int64    `json:"base_ns"`           // nanosecond field of the first modification time
+	Initial   *File    `json:"initial,omitempty"` // file present when the configuration object is created (nil: no file yet)
+	Observers int      `json:"observers"`
 	InitDef   Defaults `json:"init_def"`
-	Steps     []HStep `json:"steps"`
+	Steps     []HStep  `json:"steps"`
 }
 
 // recObserver records notifications and, inside the callback, reads every key of
@@ -227,7 +227,7 @@ func runHistory(c HCase) *pbt.Result {
 
 var historySpec = pbt.Register(pbt.Spec[HCase]{
 	Prop: "C18", Name: "config-histories",
-	Rule: "history = optional initial file, then 1-6 steps of (new version of the file with a modification time dsec seconds + dns nanoseconds after the previous one | no edit) followed by 0-2 reloads; after every reload every non-empty key=value of the current version must be returned by GetValue/GetValueDef (trimmed) and by GetBoolean/GetInt/GetLong/GetFloat/GetIntSet/GetStringArray (strconv on the trimmed value, else the drawn default), two keys never in the file must yield the defaults, and each of 0-3 observers must have been called exactly once per changed version with the new values already visible inside the callback; non-trivial = at least one version written in the same second as the previous version",
+	Rule:  "history = optional initial file, then 1-6 steps of (new version of the file with a modification time dsec seconds + dns nanoseconds after the previous one | no edit) followed by 0-2 reloads; after every reload every non-empty key=value of the current version must be returned by GetValue/GetValueDef (trimmed) and by GetBoolean/GetInt/GetLong/GetFloat/GetIntSet/GetStringArray (strconv on the trimmed value, else the drawn default), two keys never in the file must yield the defaults, and each of 0-3 observers must have been called exactly once per changed version with the new values already visible inside the callback; non-trivial = at least one version written in the same second as the previous version",
 	Quick: 6000, Thorough: 600000,
 	Draw: drawHistory, Run: runHistory,
 })
